@@ -132,7 +132,7 @@ void check_C20(Src &s, Ctx &ctx) {
     for (int call = 0; call < ncalls; call++) {
         // ---- edits between calls
         if (call > 0) {
-            static const int nedit_opts[] = {1, 0, 2}; int nedits = nedit_opts[s.weighted({4, 2, 2})];
+            static const int nedit_opts[] = {1, 0, 2}; int nedits = nedit_opts[s.weighted({3, 3, 2})];
             std::vector<int> plan;
             for (int q = 0; q < nedits; q++) plan.push_back(s.weighted({2, 2, 2, 1, 2, 1}));
             auto has = [&](int k) { return std::find(plan.begin(), plan.end(), k) != plan.end(); };
